@@ -14,17 +14,18 @@ import (
 
 // Claim: what a property's check covers (read from /verif/claims/<id>.json).
 type Claim struct {
-	ID     string `json:"id"`
-	Units  []struct {
+	ID    string `json:"id"`
+	Units []struct {
 		Module   string   `json:"module"`
 		Packages []string `json:"packages"`
 	} `json:"units"`
-	Functions   []string `json:"functions"` // regexps over contract keys
-	NotDecided  []string `json:"not_decided"`
-	Assumptions []string `json:"assumptions"`
-	Bounded     []string `json:"bounded"`
-	Replay      string   `json:"replay"`
-	ContractFiles string `json:"contract_files"` // regexp over contract file base names (default: all)
+	Functions     []string `json:"functions"` // regexps over contract keys
+	NotDecided    []string `json:"not_decided"`
+	Assumptions   []string `json:"assumptions"`
+	Bounded       []string `json:"bounded"`
+	Replay        string   `json:"replay"`
+	ContractFiles string   `json:"contract_files"` // regexp over contract file base names (default: all)
+	Kinds         string   `json:"kinds"`          // regexp over obligation kinds this claim consists of (default: all)
 }
 
 var verifDir = "/verif"
@@ -62,7 +63,7 @@ func main() {
 
 type knownFinding struct {
 	Prop, Obl, Text string
-	re   *regexp.Regexp
+	re              *regexp.Regexp
 }
 
 func loadKnown() []knownFinding {
@@ -175,7 +176,20 @@ func runCheck(id, tier, repo, dump, only string, list bool) int {
 		}
 		rs := eng.Translate(k, specs.Funcs[k])
 		results = append(results, rs...)
+		var kre *regexp.Regexp
+		if claim.Kinds != "" {
+			kre = regexp.MustCompile("^(?:" + claim.Kinds + ")$")
+		}
 		for _, r := range rs {
+			if kre != nil {
+				var keep []*Obligation
+				for _, o := range r.Obls {
+					if kre.MatchString(o.Kind) {
+						keep = append(keep, o)
+					}
+				}
+				r.Obls = keep
+			}
 			all = append(all, r.Obls...)
 		}
 	}
